@@ -58,6 +58,10 @@ def run(ctx: Ctx):
               ' the input queue (`result.stop_with(<input>)`, R-C13-10) — linked the other way round, the end of the feeders'
               ' stops the result queue while the workers still hold elements: their remaining puts are dropped and the'
               ' consumer gets end-of-stream with the tail of the stream missing', _c13.r10, min_instances=1)
+  ctx.include('R-C04-25', '"consumers get every element exactly once and then exactly one end-of-stream": the multiplexing queue knows how'
+              ' many producers to expect BEFORE any of them runs (max_enqueuer=len(inputs), R-C13-2): with a busy pool the'
+              ' producers that already started can finish before a queued one begins, and the stream would end early', _c13.r2,
+              min_instances=1)
   from mlmverif.props import c14 as _c14
   ctx.include('R-C04-24', '"exactly one end-of-stream carrying all producers\' return values" on the ASYNC consumer paths too: every'
               ' conversion of the queue\'s StopIteration into StopAsyncIteration passes `*e.args` on (R-C14-16) — a bare'
@@ -1438,6 +1442,8 @@ from mlmverif.selfcheck import B, OK  # noqa: E402
 
 _F = 'utils/iter_utils.py'
 VARIANTS = [
+    B('multiplex-queue-without-a-declared-producer-count', 'utils/iter_utils.py',
+      "      max_enqueuer=len(input_iterators),\n", "", 'R-C04-25'),
     B('async-batch-end-of-stream-without-values', 'utils/iter_utils.py',
       "    return iterator_queue.get_batch()\n  except StopIteration as e:\n    raise StopAsyncIteration(*e.args) from e", "    return iterator_queue.get_batch()\n  except StopIteration as e:\n    raise StopAsyncIteration() from e", 'R-C04-24'),
     B('async-producer-registers-after-its-source-resolved', 'utils/iter_utils.py',
